@@ -58,7 +58,7 @@ func c02Run(ctx *core.Ctx) {
 	for _, la := range c02Lookalikes {
 		for _, b := range c02Baits {
 			bodies = append(bodies, []byte("Subject: t\r\n\r\nhello"+la+b+"\r\nmore"))
-			if !ctx.Thorough() {
+			if !ctx.Thorough() && len(bodies)%7 == 3 {
 				break
 			}
 		}
@@ -69,7 +69,7 @@ func c02Run(ctx *core.Ctx) {
 		bodies = append(bodies, []byte("x"+la+b+la+c02Baits[(i+1)%len(c02Baits)]+"\r\n"))
 		bodies = append(bodies, []byte("x"+la+b))
 	}
-	nRand := 300
+	nRand := 1200
 	if ctx.Thorough() {
 		nRand = 20000
 	}
